@@ -49,26 +49,39 @@ Theorem C04_exactly_once_quiescent : forall (P : params) (sched : list choice),
 Proof. exact quiescent_exactly_once. Qed.
 Print Assumptions C04_exactly_once_quiescent.
 
-(* The bytes: for every execution without a worker-side send_continue (class of finding F18),
-   wire ++ pending ++ discarded-at-close = produced (nothing duplicated, lost or reordered between
-   the buffers and the wire), produced = the units in order, and the response units are exactly the
-   executed requests in order (each response contiguous, interim responses only between them). *)
-Theorem C04_wire_partial : forall (P : params) (sched : list choice),
-  wsc (sh (run P sched)) = false -> wire_statement P (run P sched).
-Proof. exact wire_partial. Qed.
-Print Assumptions C04_wire_partial.
+(* The bytes, at full strength (every schedule, no class excluded), for the code as it is
+   (p_unlocked = false: since 8bcf05e the I/O thread flushes only under outbuf_lock):
+   wire ++ pending = produced with the one contiguous segment cut out that handle_close discarded
+   (nothing duplicated, lost or reordered between the buffers and the wire); produced = the units in
+   order; the response units are exactly the executed requests in order (each response contiguous,
+   interim responses only between them). *)
+Theorem C04_wire : forall (P : params), p_unlocked P = false ->
+  forall (sched : list choice), wire_statement P (run P sched).
+Proof. exact wire_full. Qed.
+Print Assumptions C04_wire.
 
 (* ... and every response but the one being written is complete while the connection is open. *)
-Theorem C04_complete_partial : forall (P : params) (sched : list choice),
+Theorem C04_complete : forall (P : params), p_unlocked P = false ->
+  forall (sched : list choice),
   let st := run P sched in
-  wsc (sh st) = false -> connected (sh st) = true ->
+  connected (sh st) = true ->
   (forall j, in_task (wpc (wk st j)) = false) -> Forall (complete P) (units (sh st)).
-Proof. exact complete_partial. Qed.
-Print Assumptions C04_complete_partial.
+Proof. exact complete_full. Qed.
+Print Assumptions C04_complete.
 
-(* The full statement (without the class restriction) is FALSE of the model, as it is of the code
-   (finding F18): the worker's send_continue() and the I/O thread's unlocked _flush_some send the
-   same chunk twice. *)
-Theorem C04_wire_refuted : exists (P : params) (sched : list choice), ~ wire_statement P (run P sched).
-Proof. exact wire_refuted. Qed.
-Print Assumptions C04_wire_refuted.
+(* The ownership discipline behind it, at full strength: a thread inside _flush_some holds outbuf_lock. *)
+Theorem C04_flush_under_lock : forall (P : params), p_unlocked P = false ->
+  forall (sched : list choice),
+  let st := run P sched in
+  (forall f, io_fl (ipc (io st)) = Some f -> olock (sh st) = Some TIo) /\
+  (forall j f, wk_fl (wpc (wk st j)) = Some f -> olock (sh st) = Some (TW j)).
+Proof. exact flush_under_lock. Qed.
+Print Assumptions C04_flush_under_lock.
+
+(* The previous shape of handle_write (unlocked _flush_some when requests == [], before 8bcf05e) made
+   the wire statement FALSE (finding F18): the worker's send_continue() and the I/O thread's
+   unlocked flush sent the same chunk twice.  Kept as a statement about the old shape. *)
+Theorem C04_wire_refuted_old : exists (P : params) (sched : list choice),
+  p_unlocked P = true /\ ~ wire_statement P (run P sched).
+Proof. exact wire_refuted_old. Qed.
+Print Assumptions C04_wire_refuted_old.
